@@ -350,7 +350,7 @@ def rand_value(r, enc, ctx, bait=None, maxlen=8):
 # <meta> declarations
 # --------------------------------------------------------------------------------------
 KEY_CASES = ["charset", "charset", "CHARSET", "Charset", "charSet", "cHaRsEt"]
-WS_EQ = ["", "", " ", "  ", "\t"]
+WS_EQ = ["", "", " ", "  ", "\t"]   # around `=`: ASCII only — the input-side detector (a bytes pattern) reads nothing else there
 MIMES = ["text/html", "text/html", "application/xhtml+xml", "text/html ", "x", "text/html\\1", "\\g<2>", "(text)/html$"]
 OLD_NAMES = ["utf8", "utf-8", "ISO-8859-1", "windows-1252", "x", "koi8-r", "shift_jis", "",
              # digits and regex/format metacharacters: the rewrite must be literal both ways
@@ -374,7 +374,7 @@ def content_expected(p, e, pyspec):
 def rand_content_decl(r):
     """the parts of a content value; every spelling is one that the input-side detector (dammit: case-insensitive, white
     space around `=`) reads as a declaration"""
-    return dict(mime=r.choice(MIMES), sep=r.choice([";", ";", ";", ";", "\n"]), before=r.choice(["", "", "", "; x=y", ";a=b", "; x=\\1", ";\\g<1>=%s"]), w0=r.choice(["", " ", " ", "  ", "\n", "\n "]),
+    return dict(mime=r.choice(MIMES), sep=r.choice([";", ";", ";", ";", "\n"]), before=r.choice(["", "", "", "; x=y", ";a=b", "; x=\\1", ";\\g<1>=%s"]), w0=r.choice(["", " ", " ", "  ", "\n", "\n ", " ", "\xa0", "\u3000"]),   # before the key anything `\s` (str pattern: Unicode) may stand
                 key=r.choice(KEY_CASES), w1=r.choice(WS_EQ), w2=r.choice(WS_EQ), old=r.choice(OLD_NAMES),
                 after=r.choice(["", "", "", "; x=y", ";q", ";", "; y=\\g<1>", ";\\2{0}$"]))
 
